@@ -279,12 +279,12 @@ def pmaxIdx (imax ns : Nat) : Nat × Nat × Nat := (imax - 1, imax, min (imax + 
 /-- `0.5 *` this matrix maps the three samples to the coefficients `(poly[0], poly[1], poly[2])` -/
 def pmaxMatrix : List (List Int) := [[1, -2, 1], [-1, 0, 1], [0, 2, 0]]
 
-/-- Integer skeleton of `parabolic_max` (vocabulary of the tie): argmax along the last axis, the three positions read
-(2-D branch only), twice the scale factor and the nine matrix entries, the operands of the two edge tests. -/
-def pmaxPlan (twoD : Bool) (imax ns : Nat) : List Ev :=
-  [("argmax", [-1])]
-    ++ (if twoD then [("rows", [((pmaxIdx imax ns).1 : Int), ((pmaxIdx imax ns).2.1 : Int), ((pmaxIdx imax ns).2.2 : Int)])] else [])
-    ++ [("poly", 1 :: pmaxMatrix.flatten), ("edges", [(imax : Int), 0, (imax : Int), ((ns - 1 : Nat) : Int)])]
+/-- Integer skeleton of `parabolic_max` (vocabulary of the tie; the same for the 1-D and the 2-D branch): argmax along the last
+axis, the three positions read, twice the scale factor and the nine matrix entries, the operands of the two edge tests. -/
+def pmaxPlan (imax ns : Nat) : List Ev :=
+  [("argmax", [-1]),
+   ("rows", [((pmaxIdx imax ns).1 : Int), ((pmaxIdx imax ns).2.1 : Int), ((pmaxIdx imax ns).2.2 : Int)]),
+   ("poly", 1 :: pmaxMatrix.flatten), ("edges", [(imax : Int), 0, (imax : Int), ((ns - 1 : Nat) : Int)])]
 
 /-- one row of the 2-D branch, transcribed literally: the interpolation is computed from the clipped positions for every
 row, then overwritten by the sample itself on the rows whose maximum is on an edge -/
